@@ -62,7 +62,7 @@ Theorem C08_copies_read_byte : forall m l, WF m l -> (0 < len l)%Z ->
 Proof. exact read_byte_refines. Qed.
 Print Assumptions C08_copies_read_byte.
 
-Theorem C08_copies_discard : forall m n l, WF m l -> (Z.of_nat n <= len l)%Z -> slices l <> [] ->
+Theorem C08_copies_discard : forall m n l, WF m l -> (Z.of_nat n <= len l)%Z ->
   exists l', discard n l = Ok (n, l') /\ content m l' = skipn n (content m l) /\ WF m l' /\ leases l' = leases l.
 Proof. exact discard_refines. Qed.
 Print Assumptions C08_copies_discard.
